@@ -29,6 +29,32 @@ pub fn spec(s: &mut Session, cr: &mut Crafter, q: &str) -> String {
     a
 }
 
+/// a client whose password names a chain of identity keys (`iPSK1:iPSK2:…:uPSK`): one identity header per hop, each
+/// sealed under its own hop's identity sub-key (SIP022 3.1.3); the wire is compared byte for byte with the model's
+/// (which is proved equal to the Spec builder), the first hop's header is opened with the Spec side
+fn ss_identity_chain(s: &mut Session, cr: &mut Crafter, rng: &mut Rng, cipher: &'static str) {
+    use base64ct::{Base64, Encoding};
+    s.begin_case(&format!("ss-identity-chain:{}", cipher));
+    let n = key_len(cipher);
+    for hops in [2usize, 3] {
+        let keys: Vec<String> = (0..=hops).map(|_| Base64::encode_string(&rng.bytes(n))).collect();
+        let cc = s.fresh("cc");
+        if s.run(&format!("ss.cctx {} cipher={} password={}", cc, cipher, keys.join(":"))) != "ok" {
+            s.oracle_fail(&format!("ss-identity-chain:{}", cipher), "a password with several identity keys is refused");
+            continue;
+        }
+        let c = s.fresh("c");
+        s.run(&format!("ss.new {} {} {}", c, cc, random_addr(rng)));
+        let Some(wire) = encode_all(s, &c, &[rng.bytes(40), rng.bytes(300)]) else { return };
+        // hop i finds hash(key i+1) in header i: checked with the Spec side for every hop
+        let a = spec(s, cr, &format!("spec.eih.chain cipher={} password={} wire={}", cipher, keys.join(":"), hex(&wire[..(n + 16 * hops).min(wire.len())])));
+        if a != "ok" {
+            s.oracle_fail(&format!("ss-identity-chain:{}", cipher), &format!("with {} identity keys a hop does not find the next key's hash in its identity header: {}", hops, a));
+        }
+    }
+    s.mark_nontrivial();
+}
+
 fn ss_code_to_spec(s: &mut Session, cr: &mut Crafter, rng: &mut Rng, cipher: &'static str, want_user: bool) {
     s.begin_case(&format!("ss-emit:{}:{}", cipher, if want_user { "eih" } else { "psk" }));
     let cfg = random_cfg(rng, cipher, want_user);
@@ -163,6 +189,45 @@ fn ss_spec_to_code(s: &mut Session, cr: &mut Crafter, rng: &mut Rng, cipher: &'s
     let want: Vec<u8> = [payload, chunks.concat()].concat();
     if d.err || d.panic || d.connect.as_deref() != Some(addr.as_str()) || d.data != want {
         s.oracle_fail(&format!("ss-accept:{}", cipher), &format!("spec-built stream not accepted with the same result (err={} addr={:?} {} of {} bytes)", d.err, d.connect, d.data.len(), want.len()));
+        return;
+    }
+    s.mark_nontrivial();
+}
+
+/// a Shadowsocks 2022 request whose first flight carries no payload at all (target, padding, nothing else: legal, and what
+/// a client sends for an application that waits for the server to speak first): the server must produce the connect as
+/// soon as the header is complete - it may not wait for a chunk that may never come - and the chunk that follows later
+/// is relayed as data
+pub fn ss2022_empty_first_payload(s: &mut Session, cr: &mut Crafter, rng: &mut Rng, cipher: &'static str, want_user: bool) {
+    s.begin_case(&format!("ss-accept-empty-first-payload:{}:{}", cipher, if want_user { "eih" } else { "psk" }));
+    let cfg = random_cfg(rng, cipher, want_user);
+    let n = key_len(cipher);
+    let addr = random_addr(rng);
+    let target = target_bytes(s, &addr);
+    let salt = rng.bytes(n);
+    let (sc, sv) = (s.fresh("sc"), s.fresh("s"));
+    s.run(&format!("ss.sctx {} cipher={} password={} users={}", sc, cipher, cfg.server_password, cfg.users));
+    s.run(&format!("ss.new {} {} -", sv, sc));
+    let padding = rng.bytes(*rng.clone().pick(&[1usize, 33, 900]));
+    let var = [target.clone(), be16(padding.len()), padding].concat();
+    let fixed = [vec![0u8], be64(now_secs()), be16(var.len())].concat();
+    let later = rng.bytes(40);
+    let wire = spec(s, cr, &format!("craft.ss2022 cipher={} password={} salt={} fixed={} var={} chunks={} eih={}", cipher, cfg.client_password, hex(&salt), hex(&fixed), hex(&var), hex(&later), if cfg.with_user { 1 } else { 0 }));
+    let Some(wire) = unhex(&wire) else {
+        s.oracle_fail("craft", "spec builder unavailable");
+        return;
+    };
+    // the header by itself, then the later chunk
+    let head = wire.len() - (2 + 16 + later.len() + 16);
+    let d = feed_all(s, &sv, &[wire[..head].to_vec()], false);
+    let key = format!("ss-accept-empty-first-payload:{}", cipher);
+    if d.err || d.panic || d.connect.as_deref() != Some(addr.as_str()) || !d.data.is_empty() {
+        s.oracle_fail(&key, &format!("a complete request without payload does not yield the connect by itself (err={} target={:?} {} bytes)", d.err, d.connect, d.data.len()));
+        return;
+    }
+    let d = feed_all(s, &sv, &[wire[head..].to_vec()], false);
+    if d.err || d.panic || d.connect.is_some() || d.data != later {
+        s.oracle_fail(&key, &format!("the chunk after a request without payload is not relayed as data (err={} target={:?} {} bytes)", d.err, d.connect, d.data.len()));
         return;
     }
     s.mark_nontrivial();
@@ -392,6 +457,12 @@ pub fn generate(s: &mut Session, tier: &str, rng: &mut Rng) {
                 }
                 ss_code_to_spec(s, &mut cr, rng, cipher, want_user);
                 ss_spec_to_code(s, &mut cr, rng, cipher, want_user);
+                if is2022(cipher) {
+                    ss2022_empty_first_payload(s, &mut cr, rng, cipher, want_user);
+                }
+            }
+            if eih(cipher) {
+                ss_identity_chain(s, &mut cr, rng, cipher);
             }
         }
         for cipher in ["aes-128-gcm", "chacha20-poly1305"] {
